@@ -220,7 +220,7 @@ def fmt_diff(oa, ob, na="subject", nb="reference", limit=6):
 
 # --------------------------------------------------------------------------- plan / run
 PLAN_KEYS = ("seed", "sched", "pct_depth", "pct_steps", "chunk", "crash_op", "crash_prefix", "crash_sig", "sel_timeout",
-             "wait_lag", "loadavg", "readdir_shuffle", "dt_unknown", "clock", "max_steps", "trace_sched")
+             "wait_lag", "loadavg", "readdir_shuffle", "dt_unknown", "clock", "clock_step", "max_steps", "trace_sched")
 
 
 def plan_text(plan, trace_path, roots):
